@@ -540,7 +540,7 @@ impl Default for SimOpts<'_> {
     fn default() -> Self {
         SimOpts {
             snap_root: None,
-            watchdog: Duration::from_secs(120),
+            watchdog: Duration::from_secs(60),
             max_tasks: 400,
         }
     }
